@@ -10,7 +10,11 @@
             back gives that listing on fresh row ids 0..n-1; different
             documents must give different text;
    pandas:  the frame has the listing's names and, row by row, equal numbers
-            and strings, missing (None, NaN) staying missing. *)
+            and strings, missing (None, NaN) staying missing;
+   series:  a table with SeriesColumns is a table (in which a series column
+            shows as a float-typed column of that name) plus, per slot, the
+            depth and the rows of numbers of the series held there; "preserved"
+            additionally means: same depth and, sample by sample, equal numbers. *)
 From Coq Require Import ZArith NArith List Bool String.
 From DM Require Import Base.PyVal Spec.Nf Spec.Table Model.LTable.
 Import ListNotations.
@@ -22,6 +26,12 @@ Definition with_fam (f : nat) (t : table) : table :=
 (* ---------- pickle *)
 Definition restored_like (orig r : table) : bool := table_eqb orig (with_fam (fam orig) r).
 Definition fresh_fam (used : list nat) (r : table) : bool := negb (mem_nat (fam r) used).
+
+(* every table that is constructed or restored is a family of its own: the families handed out to the roots
+   (fresh DataMatrix objects, unpickled ones, from_json results) are pairwise different and none of them is a
+   family that was already in use *)
+Definition fresh_roots (used roots : list nat) : bool :=
+  nodup_nat roots && forallb (fun f => negb (mem_nat f used)) roots.
 
 (* ---------- the column listing (DataMatrix.columns): by name when the table is flagged sorted *)
 Definition vcol := (string * kind * list val)%type.
@@ -74,3 +84,62 @@ Fixpoint frame_ok (cols : list vcol) (frame : list (string * list pcell)) : bool
 Definition pandas_ok (t : table) (frame : list (string * list pcell)) : bool := frame_ok (listing t) frame.
 Definition pandas_series_ok (t : table) (name : string) (ser : list pcell) : bool :=
   match slot_of t name with Some s => cells_ok (scells s) ser | None => false end.
+
+(* ---------- tables with SeriesColumns.  xs_table: names, order, aliasing, row ids, flags and the plain columns
+   (a series column appears in it as a KFloat slot of the right length whose cells carry no information);
+   xs_series: aligned with the slots, None for a plain column, Some (depth, rows) for a series *)
+Definition spayload := option (nat * list (list fl)).
+Record xspec := { xs_table : table; xs_series : list spayload }.
+Definition rows_eqv (a b : list (list fl)) : bool := list_eqb (list_eqb fl_eqv) a b.
+Definition spayload_eqv (a b : spayload) : bool :=
+  match a, b with
+  | None, None => true
+  | Some (d, r), Some (e, q) => Nat.eqb d e && rows_eqv r q
+  | _, _ => false
+  end.
+(* the series read by name, in name-creation order (slot numbering is not observable) *)
+Definition series_view (x : xspec) : list (string * spayload) :=
+  map (fun '(n, i) => (n, match nth_error (xs_series x) i with Some p => p | None => None end)) (names (xs_table x)).
+Definition series_view_eqb (a b : list (string * spayload)) : bool :=
+  list_eqb (fun '(n, p) '(m, q) => String.eqb n m && spayload_eqv p q) a b.
+Definition series_of (x : xspec) (n : string) : spayload :=
+  match lookup n (series_view x) with Some p => p | None => None end.
+
+(* pickle: everything but the family *)
+Definition xrestored_like (orig r : xspec) : bool :=
+  restored_like (xs_table orig) (xs_table r) && series_view_eqb (series_view orig) (series_view r).
+(* JSON: the listing on fresh row ids, the series in listing order *)
+Definition xlisting_series (x : xspec) : list (string * spayload) :=
+  map (fun v : vcol => (fst (fst v), series_of x (fst (fst v)))) (listing (xs_table x)).
+Definition xjson_image_ok (orig r : xspec) : bool :=
+  json_image_ok (xs_table orig) (xs_table r) && series_view_eqb (series_view r) (xlisting_series orig).
+Definition xdoc_eqv (a b : xspec) : bool :=
+  doc_eqv (xs_table a) (xs_table b) && series_view_eqb (xlisting_series a) (xlisting_series b).
+Definition xjson_text_ok (a b : xspec) (same_text : bool) : bool := xdoc_eqv a b || negb same_text.
+
+(* pandas: a cell of a series column must come back as the row of numbers (PRow), sample by sample equal,
+   NaN staying NaN; PRowOdd: an array of another shape or type *)
+Inductive xpcell := XCell (p : pcell) | XRow (r : list fl).
+Fixpoint rows_ok (rows : list (list fl)) (ps : list xpcell) : bool :=
+  match rows, ps with
+  | [], [] => true
+  | r :: rows', XRow q :: ps' => list_eqb fl_eqv r q && rows_ok rows' ps'
+  | _, _ => false
+  end.
+Fixpoint xcells_ok (vs : list val) (ps : list xpcell) : bool :=
+  match vs, ps with
+  | [], [] => true
+  | v :: vs', XCell p :: ps' => pandas_cell_ok v p && xcells_ok vs' ps'
+  | _, _ => false
+  end.
+Definition xcolumn_ok (x : xspec) (n : string) (c : list val) (ps : list xpcell) : bool :=
+  match series_of x n with Some (_, rows) => rows_ok rows ps | None => xcells_ok c ps end.
+Fixpoint xframe_ok (x : xspec) (cols : list vcol) (frame : list (string * list xpcell)) : bool :=
+  match cols, frame with
+  | [], [] => true
+  | (n, _, c) :: cols', (m, ps) :: frame' => str_eqb n m && xcolumn_ok x n c ps && xframe_ok x cols' frame'
+  | _, _ => false
+  end.
+Definition xpandas_ok (x : xspec) (frame : list (string * list xpcell)) : bool := xframe_ok x (listing (xs_table x)) frame.
+Definition xpandas_series_ok (x : xspec) (name : string) (ser : list xpcell) : bool :=
+  match slot_of (xs_table x) name with Some s => xcolumn_ok x name (scells s) ser | None => false end.
